@@ -242,7 +242,49 @@ fn extractor<CS: BbsCiphersuite>(r: &Ref, inp: &Inputs<CS>, gens: &[&Gen]) -> Re
     Ok(pairs)
 }
 
+/// global bit statistics of every blinding scalar seen in the run (low 240 bits; the top bits of a value
+/// reduced modulo r are not uniform)
+static BIT_ONES: std::sync::Mutex<([u64; 240], u64)> = std::sync::Mutex::new(([0u64; 240], 0));
+
+fn record_bits(s: &Scalar) {
+    let b = s.to_be_bytes();
+    let mut g = BIT_ONES.lock().unwrap();
+    for bit in 0..240 {
+        let byte = b[31 - bit / 8];
+        if byte >> (bit % 8) & 1 == 1 {
+            g.0[bit] += 1;
+        }
+    }
+    g.1 += 1;
+}
+
+/// monobit test per bit position at 7 sigma (false-alarm probability < 1e-9 over all positions)
+fn judge_bits() -> Result<(u64, f64), (String, String)> {
+    let g = BIT_ONES.lock().unwrap();
+    let n = g.1 as f64;
+    if g.1 < 2000 {
+        return Ok((g.1, 0.0));
+    }
+    let sigma = n.sqrt() / 2.0;
+    let mut worst = 0.0f64;
+    for bit in 0..240 {
+        let dev = (g.0[bit] as f64 - n / 2.0).abs() / sigma;
+        if dev > worst {
+            worst = dev;
+        }
+        if dev > 7.0 {
+            return Err(("biased-blinding-bits".into(), format!("bit {} of the {} recomputed blinding scalars is set {} times ({:.1} sigma from n/2): the blinding is not uniform", bit, g.1, g.0[bit], dev)));
+        }
+    }
+    Ok((g.1, worst))
+}
+
 fn judge_pool(pool: &Pool) -> Result<(), (String, String)> {
+    for (nm, s) in &pool.scalars {
+        if !nm.contains("challenge") {
+            record_bits(s);
+        }
+    }
     let mut seen: HashSet<[u8; 32]> = HashSet::new();
     for (nm, s) in &pool.scalars {
         if *s == Scalar::ZERO {
@@ -429,21 +471,38 @@ pub fn run(ctx: &Ctx, rep: &Report) -> Meta {
         .map(|(k, &suite)| Case { suite, seed_a: (ctx.seed as u32).wrapping_add(k as u32), seed_b: 0, u: [1, 3][k], m: [2, 0][k], schedule: vec![false; ctx.tier.pick(24, 200)], threads: 1 })
         .collect();
     par_items(ctx, rep, "fresh-processes", &procs, |c| child_processes(rep, "fresh-processes", c, ctx.tier.pick(3, 8)));
+    if !rep.aborted() {
+        match judge_bits() {
+            Ok((n, worst)) => rep.note(format!("bit balance over {} blinding scalars (low 240 bits): worst deviation {:.2} sigma (limit 7)", n, worst)),
+            Err((site, msg)) => rep.add_violation(Fail { check: "bit-balance".into(), site, msg, case: json!({"note": "statistic over the whole run"}) }),
+        }
+    }
     Meta {
         rule: "history = a generated schedule of n generations (small shapes U in {0,1,3}, M in {0,2}); large shapes with up to 70 / 600 hidden and 64 / 600 committed messages and EVERY count of hidden messages 0..72 / 0..140 with two generations each; (n = 64 quick / 1000 thorough) over two input sets (same input repeated most of the time), on 1, 4 or 16 threads released from a barrier, \
                plus identical inputs in 3 (quick) / 8 (thorough) fresh child processes; each generation = proof_gen + commit + blind_sign + blind_proof_gen + BlindFactor::random + KeyPair::random + generate_random_secret; \
                oracle (witness holder): e~ = e^ - e*c, m~_j = m^_j - m_j*c, s~ = s^ - blind*c are non-zero, >= 2^128, pairwise distinct over the whole pooled history (also vs. challenges, blind factors, random keys), \
                consecutive values differ by >= 2^128 both ways, Abar/Bbar/D/commitments/random secrets pairwise distinct, two-transcript extractor returns neither e nor a hidden message, \
-               no 32/48-octet window of an encoding equals a hidden scalar, e, the blind factor or A; non-trivial = history with >= 2 generations over identical inputs"
+               every bit of the low 240 bits of the recomputed blinding scalars is balanced over the whole run (monobit test per position at 7 sigma); no 32/48-octet window of an encoding equals a hidden scalar, e, the blind factor or A; non-trivial = history with >= 2 generations over identical inputs"
             .into(),
         assumptions: vec![
             "uniform 255-bit values violate the thresholds with probability < n * 2^-127; distinctness fails by chance with probability < n^2 * 2^-255".into(),
-            "freshness / independence can only be refuted by sampling: a biased but non-repeating generator is not detected".into(),
+            "freshness / independence can only be refuted by sampling: beyond repetition, structure and per-bit balance, a subtly biased generator is not detected".into(),
         ],
     }
 }
 
 pub fn replay(_ctx: &Ctx, rep: &Report, ck: &str, case: &Value) -> CheckResult {
+    if ck == "bit-balance" {
+        // the statistic is over a whole run: regenerate 40 histories and judge again
+        for k in 0..40u32 {
+            let c = Case { suite: if k % 2 == 0 { SuiteId::Sha256 } else { SuiteId::Shake256 }, seed_a: k, seed_b: k + 1, u: 3, m: 2, schedule: vec![false; 64], threads: 1 };
+            check(rep, ck, &c)?;
+        }
+        return match judge_bits() {
+            Ok(_) => Ok(()),
+            Err((site, msg)) => Err(Fail { check: ck.into(), site, msg, case: case.clone() }),
+        };
+    }
     let c: Case = serde_json::from_value(case["case"].clone()).map_err(|e| Fail {
         check: ck.into(),
         site: "replay-parse".into(),
